@@ -546,7 +546,9 @@ def explore_many(ctx, jobs, descend_level=2):
     frontier = [(j[0], []) for j in jobs]
     level = 0
     while frontier:
-        descend = level >= descend_level
+        # a frontier already wide enough to keep every worker busy is descended by the workers themselves: the same executions,
+        # but the parent never holds the (possibly 10^6-entry) next level (k_mid x r frontiers of C19 reached 3 GB, copied on fork)
+        descend = level >= descend_level or len(frontier) >= 4096
         tasks = [(byname[n][1], byname[n][2], byname[n][3], d, descend, n) for n, d in frontier]
         frontier = []
 
